@@ -31,28 +31,213 @@ PWD_WRITERS = {(DS, "_change_working_directory"), (BS, "BaseShell._fix_cwd"), ("
 STACK_MUT = {"pop", "insert", "append", "extend", "remove", "clear", "reverse", "sort"}
 
 
-def _stack_mutations(fn):
+def _stack_mutations(fn, names=("DIRSTACK",)):
+    """statements / calls that change the directory stack (``names``: the global and the locals that hold the same list)"""
     out = []
+
+    def stk(e):
+        return isinstance(e, ast.Name) and e.id in names
+
     for n in walk_local(fn):
-        if isinstance(n, ast.Call) and isinstance(n.func, ast.Attribute) and is_name(n.func.value, "DIRSTACK") and n.func.attr in STACK_MUT:
+        if isinstance(n, ast.Call) and isinstance(n.func, ast.Attribute) and stk(n.func.value) and n.func.attr in STACK_MUT:
             out.append(n)
         elif isinstance(n, (ast.Assign, ast.AugAssign)):
             tg = n.targets if isinstance(n, ast.Assign) else [n.target]
             for t in tg:
-                if is_name(t, "DIRSTACK") or (isinstance(t, ast.Subscript) and is_name(t.value, "DIRSTACK")):
+                if is_name(t, "DIRSTACK") or (isinstance(t, ast.Subscript) and stk(t.value)):
                     out.append(n)
         elif isinstance(n, ast.Delete):
             for t in n.targets:
-                if isinstance(t, ast.Subscript) and is_name(t.value, "DIRSTACK"):
+                if isinstance(t, ast.Subscript) and stk(t.value):
                     out.append(n)
     return out
 
 
-def _is_error_return(a):
-    if not isinstance(a, ast.Return) or not isinstance(a.value, ast.Tuple) or len(a.value.elts) != 3:
+# ---- value-sensitive reachability -----------------------------------------------------------------
+# A command reports failure as `return out, err, <non-zero>`.  The status may travel: through a local (`rtn = 1 ...
+# return None, err, rtn`), through the result of a helper that the caller unpacks and tests (`new, err, rtn = _take(..);
+# if rtn: return None, err, rtn`) or hands on unchanged (`refusal = _check(d); if refusal is not None: return refusal`).
+# The rules below therefore walk the CFG of the helper-transparent view together with the constants that locals hold:
+# a state is (node, {local: abstract value}, flag), a branch whose test the constants decide is followed only in the
+# decided direction, and a return is an error return where its value *evaluates* to a triple with a non-zero status.
+# Abstract values: ("c", None/bool/int) | ("t", (element values...)) | None = unknown.  Only edges that constants decide
+# are pruned, so every path the program can take is still walked (sound refinement of plain CFG reachability).
+_STATE_LIMIT = 60000
+
+
+def _aval(e, env):
+    if isinstance(e, ast.Constant):
+        return ("c", e.value) if e.value is None or isinstance(e.value, (bool, int)) else None
+    if isinstance(e, ast.Tuple) and not any(isinstance(x, ast.Starred) for x in e.elts):
+        return ("t", tuple(_aval(x, env) for x in e.elts))
+    if isinstance(e, ast.Name):
+        return env.get(e.id)
+    return None
+
+
+_CMP = {ast.Eq: lambda a, b: a == b, ast.NotEq: lambda a, b: a != b, ast.Lt: lambda a, b: a < b, ast.LtE: lambda a, b: a <= b, ast.Gt: lambda a, b: a > b, ast.GtE: lambda a, b: a >= b}
+
+
+def _truth(test, env):
+    """three-valued truth of a branch test under the constants known in ``env``"""
+    none = ("c", None)
+
+    def atom(e):
+        if isinstance(e, (ast.Name, ast.Tuple)):
+            v = _aval(e, env)
+            return None if v is None else bool(v[1])
+        if isinstance(e, ast.Compare) and len(e.ops) == 1:
+            a, b, op = _aval(e.left, env), _aval(e.comparators[0], env), e.ops[0]
+            if a is None or b is None:
+                return None
+            if a == none or b == none:
+                # None compared with a known value: identical / equal only to None itself
+                if isinstance(op, (ast.Is, ast.Eq)):
+                    return a == b
+                if isinstance(op, (ast.IsNot, ast.NotEq)):
+                    return a != b
+                return None
+            if a[0] == "c" and b[0] == "c" and type(op) in _CMP:
+                return _CMP[type(op)](a[1], b[1])
+        return None
+
+    return ev3(test, atom)
+
+
+def _is_error_value(v):
+    """the abstract value of a returned expression is `(out, err, <non-zero status>)`"""
+    if not v or v[0] != "t" or len(v[1]) != 3:
         return False
-    rc = a.value.elts[2]
-    return isinstance(rc, ast.Constant) and isinstance(rc.value, int) and rc.value != 0
+    rc = v[1][2]
+    return bool(rc) and rc[0] == "c" and isinstance(rc[1], int) and rc[1] != 0
+
+
+def _bind_aval(env, target, val):
+    if isinstance(target, ast.Name):
+        if val is not None:
+            env[target.id] = val
+    elif isinstance(target, (ast.Tuple, ast.List)) and val is not None and val[0] == "t" and len(val[1]) == len(target.elts) and not any(isinstance(t, ast.Starred) for t in target.elts):
+        for t, v in zip(target.elts, val[1]):
+            _bind_aval(env, t, v)
+
+
+class _Walk:
+    """value-sensitive walk over the CFG of one (flattened) function"""
+
+    def __init__(self, cfg, fn):
+        self.cfg = cfg
+        # names another scope can rebind behind the function's back are never tracked
+        self.untracked = {x for n in ast.walk(fn) if isinstance(n, (ast.Global, ast.Nonlocal)) for x in n.names}
+        self._stored = {}
+        self._runs = {}
+
+    def stored(self, n):
+        """names (re)bound by the part of the statement that this CFG node stands for"""
+        if n in self._stored:
+            return self._stored[n]
+        a, k = n.ast, n.kind
+        parts, out = [], set()
+        if a is None or k in ("inline", "inline_return", "with_exit", "finally", "entry", "exit", "raise"):
+            pass
+        elif k in ("if", "while"):
+            parts = [a.test]
+        elif k == "for":
+            parts = [a.target, a.iter]
+        elif k == "with":
+            parts = [x for it in a.items for x in (it.context_expr, it.optional_vars) if x is not None]
+        elif k == "handler":
+            out |= {a.name} if a.name else set()
+        elif k == "stmt":
+            if isinstance(a, FuncTypes + (ast.ClassDef,)):
+                out.add(a.name)
+            elif isinstance(a, (ast.Import, ast.ImportFrom)):
+                out |= {(al.asname or al.name).split(".")[0] for al in a.names}
+            else:
+                parts = [a]
+        else:
+            raise AnalysisError(f"C16: CFG node kind `{k}` at line {n.line} is not modelled by the value-sensitive walk")
+        for p_ in parts:
+            out |= {x.id for x in ast.walk(p_) if isinstance(x, ast.Name) and isinstance(x.ctx, (ast.Store, ast.Del))}
+        self._stored[n] = out
+        return out
+
+    def post(self, n, env):
+        """environment after the node completed normally"""
+        st = self.stored(n)
+        if not st:
+            return env
+        new = {k: v for k, v in env.items() if k not in st}
+        a = n.ast
+        if n.kind == "stmt" and isinstance(a, (ast.Assign, ast.AnnAssign)) and a.value is not None and not any(isinstance(x, ast.NamedExpr) for x in ast.walk(a)):
+            val = _aval(a.value, env)
+            for t in a.targets if isinstance(a, ast.Assign) else [a.target]:
+                _bind_aval(new, t, val)
+        for k in self.untracked:
+            new.pop(k, None)
+        return new
+
+    def run(self, marks=(), skip_edge=None, tag=None):
+        """{(node, env, flag): predecessor state}: the states reachable from the entry.  ``flag`` becomes true once a
+        node in ``marks`` completed normally (an exception edge out of it means it did not happen, as in CFG.reach
+        callers elsewhere).  ``skip_edge(node, label)`` removes edges."""
+        if tag is not None and tag in self._runs:
+            return self._runs[tag]
+        from collections import deque
+
+        marks = set(marks)
+        start = (self.cfg.entry, frozenset(), False)
+        seen = {start: None}
+        dq = deque([start])
+        while dq:
+            s = dq.popleft()
+            n, envk, flag = s
+            env = dict(envk)
+            post = None
+            for m, label in n.succ:
+                if skip_edge is not None and skip_edge(n, label):
+                    continue
+                if label == "exc":
+                    st = self.stored(n)
+                    e2, f2 = {k: v for k, v in env.items() if k not in st}, flag
+                else:
+                    if post is None:
+                        post = self.post(n, env)
+                    if n.kind in ("if", "while") and label in ("true", "false"):
+                        t = _truth(n.ast.test, post)
+                        if t is not None and t != (label == "true"):
+                            continue
+                    e2, f2 = post, flag or n in marks
+                s2 = (m, frozenset(e2.items()), f2)
+                if s2 not in seen:
+                    seen[s2] = s
+                    dq.append(s2)
+                    if len(seen) > _STATE_LIMIT:
+                        raise AnalysisError(f"C16: more than {_STATE_LIMIT} states in the value-sensitive walk of {getattr(self.cfg.func, 'name', '?')}")
+        if tag is not None:
+            self._runs[tag] = seen
+        return seen
+
+    @staticmethod
+    def witness(seen, state):
+        path = []
+        while state is not None:
+            if not path or path[-1] is not state[0]:
+                path.append(state[0])
+            state = seen[state]
+        return list(reversed(path))
+
+    def guarded(self, node, texts, preds):
+        """every walk from the entry to ``node`` takes an edge on which `pred(<one of texts>)` is known to be true
+        (decided on the helper-transparent view, so the test may sit in a helper whose refusal the caller returns)"""
+
+        def asserts(n, label):
+            if n.kind not in ("if", "while") or label not in ("true", "false"):
+                return False
+            return any(pol and isinstance(e, ast.Call) and (call_name(e) or "") in preds and len(e.args) == 1 and not e.keywords and unparse(e.args[0]) in texts for e, pol in implied_facts(n.ast.test, label == "true"))
+
+        if not any(s[0] is node for s in self.run(tag="all")):
+            return False  # not reached at all: nothing vouches for it
+        return not any(s[0] is node for s in self.run(skip_edge=asserts))
 
 
 # ---- bounded arithmetic check of computed stack indexes -------------------------------------------
